@@ -238,6 +238,11 @@ class Parser(object):
 
     def p_constant_def(self, t):
         '''constant_def : CONST unique_id EQUALS expression SEMI'''
+        self._parser_check(
+            -(1 << 63) <= t[4] < (1 << 64),
+            "constant value '{}' out of 64-bit range".format(t[4]),
+            t.lineno(4), t.lexpos(4)
+        )
         node = model.Constant(t[2], str(t[4]))
         self.constdecls[t[2]] = node
         self.nodes.append(node)
